@@ -16,6 +16,7 @@ import (
 	"math/rand"
 	"os"
 	"path/filepath"
+	"runtime/debug"
 	"sort"
 	"strings"
 )
@@ -146,6 +147,10 @@ func evalOpHere(line string) (res string) {
 	defer func() {
 		if e := recover(); e != nil {
 			res = "panic"
+			if os.Getenv("VERIF_DEBUG") != "" {
+				res = fmt.Sprintf("panic:%v", e)
+				debug.PrintStack()
+			}
 		}
 	}()
 	parts := strings.Split(line, " ")
